@@ -198,6 +198,12 @@ theorem listed_etag_matches (ts : List PTag) (hne : ts ≠ []) (wf : ∀ t ∈ t
 def tagsExample : List PTag :=
   [⟨[], "\"a,b\"".toList, [' ']⟩, ⟨[' '], "W/\"c\"".toList, ['\t']⟩, ⟨[], "*".toList, []⟩]
 
+example : ∀ t ∈ tagsExample, t.WF := by
+  intro t ht
+  simp only [tagsExample, List.mem_cons, List.not_mem_nil, or_false] at ht
+  rcases ht with rfl | rfl | rfl <;>
+    exact ⟨by decide, by decide, by decide, by decide, by decide, by decide⟩
+
 example : joinSep ',' (tagsExample.map PTag.render) = "\"a,b\" , W/\"c\"\t,*".toList := by decide
 example : ∀ t ∈ tagsExample, commasQuoted t.tag = true ∧ countQuotes t.tag % 2 = 0 := by decide
 example : elementsSimple (some "\"a,b\" , W/\"c\"\t,*".toList) =
